@@ -3,6 +3,7 @@ package conc
 import (
 	"context"
 	"encoding/json"
+	"errors"
 	"fmt"
 	"os"
 	"path/filepath"
@@ -63,10 +64,15 @@ type scenario struct {
 	Pos   int `json:"pos"`
 	Exec  int `json:"exec"` // 0 sync 1 async
 	Rep   int `json:"rep"`
+	NotFound bool `json:"loader_reports_not_found"` // the load ends with "not found" instead of a value
 }
 
 func (s scenario) String() string {
-	return fmt.Sprintf("%s, %s %s (executor %d)", loadKindNames[s.Load], writeKindNames[s.Write], posNames[s.Pos], s.Exec)
+	out := ""
+	if s.NotFound {
+		out = ", loader reports not-found"
+	}
+	return fmt.Sprintf("%s, %s %s (executor %d%s)", loadKindNames[s.Load], writeKindNames[s.Write], posNames[s.Pos], s.Exec, out)
 }
 
 type scenOut struct {
@@ -119,6 +125,9 @@ func runScenario(s scenario) (out scenOut) {
 		if loaderIn.CompareAndSwap(false, true) {
 			entered <- struct{}{}
 			<-release
+		}
+		if s.NotFound {
+			return 0, otter.ErrNotFound
 		}
 		return vL, nil
 	}
@@ -243,7 +252,12 @@ func runScenario(s scenario) (out scenOut) {
 	wg.Wait()
 	out.effective = inserted.Load()
 	e, ok := c.GetEntryQuietly(k)
-	if (s.Load == lkGetMiss) && (gotErr != nil || gotV != vL) {
+	if s.NotFound {
+		if s.Load == lkGetMiss && !errors.Is(gotErr, otter.ErrNotFound) {
+			out.violation = fmt.Sprintf("the waiting Get did not receive the not-found result: got (%d,%v)", gotV, gotErr)
+			return
+		}
+	} else if (s.Load == lkGetMiss) && (gotErr != nil || gotV != vL) {
 		out.violation = fmt.Sprintf("the waiting Get did not receive the loaded value: got (%d,%v)", gotV, gotErr)
 		return
 	}
@@ -272,6 +286,9 @@ func (l scenLoader) Load(ctx context.Context, key int) (int, error)        { ret
 func (l scenLoader) Reload(ctx context.Context, key, old int) (int, error) { return l.fn() }
 func (l scenLoader) BulkLoad(ctx context.Context, keys []int) (map[int]int, error) {
 	v, err := l.fn()
+	if errors.Is(err, otter.ErrNotFound) {
+		return map[int]int{}, nil // a bulk loader reports not-found by not supplying the key
+	}
 	m := map[int]int{}
 	for _, k := range keys {
 		m[k] = v
@@ -563,12 +580,12 @@ func RunC09(col *core.Collector, tier, variant string, seed uint64, shard, nshar
 		for l := 0; l < numLoadKinds; l++ {
 			for w := 0; w < numWriteKinds; w++ {
 				for p := 0; p < numPos; p++ {
-					for ex := 0; ex < 2; ex++ {
+					for ex := 0; ex < 4; ex++ {
 						idx++
 						if idx%nshards != shard {
 							continue
 						}
-						s := scenario{Load: l, Write: w, Pos: p, Exec: ex, Rep: rep}
+						s := scenario{Load: l, Write: w, Pos: p, Exec: ex % 2, Rep: rep, NotFound: ex >= 2}
 						out := runScenario(s)
 						col.Eval(1)
 						progress.Add(1)
